@@ -24,6 +24,8 @@ EXPLANATION = (
     "region means drained (equality-domain dataflow on channel_read_map) and a "
     "cursor's position is never reset without its lap. Bit-exactness, order and multiplicity under schedules, and all "
     "write delays (timing), are not decided.")
+EXPLANATION += (" R-CONSUME (symbolic evaluation of mapped regions): each release consumes exactly what was handed to storage / walked to exhaustion. R-DRAIN: a pass over the input follows every read of the stop flag. R-LIN: the channel's arithmetic obligations (see C01/C02).")
+
 
 
 def run(ctx, res):
